@@ -107,6 +107,31 @@ class MuPlusLambdaSEA(BaseSEA):
         return cls([TournamentSelection(), BreedMore(kwargs.get("mutation_std", 1.0), problem.bounds)], kwargs.get("k_elites", 1))
 
 
+class CloneES(BaseSEA):
+    """A user-written (mu + lambda) evolution strategy built on the public Individual.clone(): every child is a clone of a
+    randomly chosen parent (clones share the parent's uuid), moved by Gaussian noise and evaluated; the best parent and the
+    children compete for the mu places.  It never loses its best (C04 / C12 apply as for the shipped elitist engines)."""
+
+    def __init__(self, std, bounds):
+        super().__init__([], 1)
+        self.std, self.bounds = std, bounds
+
+    @classmethod
+    def create(cls, **kwargs):
+        return cls(kwargs.get("mutation_std", 1.0), kwargs.get("problem").bounds)
+
+    def run(self, parents, **kwargs):
+        mu = len(parents)
+        kids = []
+        for _ in range(mu):
+            child = parents[np.random.randint(mu)].clone()
+            child.genome = apply_bounds(child.genome + np.random.normal(0.0, self.std, size=child.genome.shape), self.bounds, "reflect")
+            child.evaluate()
+            kids.append(child)
+        elite = max(parents)
+        return sorted([elite] + kids, reverse=True)[:mu]
+
+
 class DocStyleConfig(BaseLevelConfig):
     """docs/custom_demes.rst, step 1."""
 
@@ -144,7 +169,7 @@ class DocStyleDemeB(DocStyleDeme):
 
 
 SEA_CLASSES = {"SEA": SEA, "SEAX": SEAWithCrossover, "GA": GAStyleSEA, "ADAPT": SEAWithAdaptiveMutation, "MWEA": MWEA,
-               "MEMETIC": MemeticSEA, "MPL": MuPlusLambdaSEA}
+               "MEMETIC": MemeticSEA, "MPL": MuPlusLambdaSEA, "CLONE": CloneES}
 POP_ENGINES = set(SEA_CLASSES) | {"DE", "DEd", "SHADE"}
 
 
@@ -509,6 +534,8 @@ def build(spec: dict):
         rec.fns = list(spec["fns"])
     rec.dump_at = spec.get("dump_at")
     rec.visuals = bool(spec.get("visuals", False))
+    rec.ret_form = spec.get("ret_form", "py")
+    rec.hib_off_at = spec.get("hib_off_at") if spec.get("hibernation") else None
     rec.dump_subprocess = bool(spec.get("dump_subprocess", False))
     # (a deep copy does not copy functions: an objective given as a lambda would keep reporting to the live recorder)
     rec.branch_copy = bool(spec.get("branch_copy", False)) and spec.get("objective_form") != "lambda"
